@@ -7,8 +7,9 @@ def write(property_id, tier, seed, level, coverage, wall_s, violations=0, assump
     ev = {"property_id": property_id, "tier": tier, "seed": int(seed), "level": level,
           "coverage": coverage, "assumptions": list(assumptions), "wall_s": round(float(wall_s), 2),
           "violations": int(violations)}
-    os.makedirs(os.path.join(VERIF, "evidence"), exist_ok=True)
-    p = os.path.join(VERIF, "evidence", property_id + ".json")
+    edir = os.environ.get("VERIF_EVIDENCE_DIR") or os.path.join(VERIF, "evidence")      # (override: experiments on scratch trees)
+    os.makedirs(edir, exist_ok=True)
+    p = os.path.join(edir, property_id + ".json")
     tmp = p + ".tmp%d" % os.getpid()
     with open(tmp, "w") as f: json.dump(ev, f, indent=1, sort_keys=True, default=_default)
     os.replace(tmp, p)
